@@ -1,5 +1,6 @@
-CONSTANTS Stride3 = 4001
-  TruncStride = 97
+CONSTANTS Stride2 = 7
+  Stride3 = 9001
+  TruncStride = 211
 INIT Init
 NEXT Next
 INVARIANTS Out AnchorsAreTokenPositions
